@@ -37,6 +37,7 @@ struct EncScenario : Scenario {
         p.ops.push_back({"ELEM", {1}, {}});
         int extra = enumerate ? 2 : r.range(1, 4);
         for (int i = 0; i < extra; i++) p.ops.push_back({"ELEM", {r.range(2, 4)}, {rhex(r, 32), rhex(r, 32), rhex(r, 47)}});
+        p.ops.push_back({"ELEM", {7}, {rhex(r, 32)}});     // identity by flag, coordinates left over
         p.ops.push_back({"ELEM", {5}, {rhex(r, 32)}});     // element whose x is small enough for x+q to fit (for plusq)
         for (int wi = 0; wi < (g == 1 ? 2 : 4); wi++) p.ops.push_back({"ELEM", {6, wi}, {}});    // subgroup elements with one coordinate sharing its top 32-bit word with q: boundary of every word-wise "coordinate < q" comparison
         size_t npool = p.ops.size();
@@ -132,6 +133,12 @@ struct EncScenario : Scenario {
                         if (src == 4) { R.jv_g2_multiply_affine(c.view, q2.b, gen, k2.data()); R.jv_g2_add(c.view, s.b, p.b, q2.b); } else R.jv_g2_scale_z(s.b, p.b, lam.data());
                         R.jv_g2affine_from_projective(c.view, a, s.b);
                     }
+                } else if (src == 7) {
+                    // an identity element the caller made by setting the flag on an object that held [k]G: the coordinates stay, the library's
+                    // predicates read the flag only. It encodes as the identity and must round-trip like any other identity object.
+                    c.mul_gen(a, k); std::string cn = c.canon(a);
+                    if (cn[0] == 0) { if (g == 1) R.jv_g1a_set_xy(a, (const uint8_t*) cn.data() + 1, 2); else { uint8_t be[192]; memcpy(be, cn.data() + 49, 48); memcpy(be + 48, cn.data() + 1, 48); memcpy(be + 96, cn.data() + 145, 48); memcpy(be + 144, cn.data() + 97, 48); R.jv_g2a_set_xy(a, be, 2); } }
+                    env.count("fault:identity_flag_set_on_object_holding_coordinates");
                 } else if (src == 6) {
                     // [k]G with a coordinate whose top 32-bit word is q's (0x1a0111ea): found by tools/witness_search.cpp (about 2^-31 per
                     // coordinate), verified here through the library, not trusted. {k, byte offset of that coordinate in x||y (c1 before c0)}
